@@ -161,34 +161,42 @@ def popTo (v : Nat) : List Nat → List Nat → List Nat × List Nat
   | [], acc => (acc.reverse, [])
   | w :: st, acc => if w = v then ((w :: acc).reverse, st) else popTo v st (w :: acc)
 
+/-- entry of `strongconnect(v)`: number `v`, push it -/
+def TState.push (s : TState) (v : Nat) : TState :=
+  { s with next := s.next + 1, stack := v :: s.stack,
+           index := fun y => if y = v then some s.next else s.index y,
+           low := fun y => if y = v then s.next else s.low y,
+           iters := s.iters + 1 }
+
+/-- body of `for w in neighbors(v)`; `rec` is the recursive call `strongconnect` -/
+def tstep (rec : Nat → TState → TState) (v : Nat) (s : TState) (w : Nat) : TState :=
+  match s.index w with
+  | none =>
+    let s' := rec w s
+    s'.setLow v (min (s'.low v) (s'.low w))
+  | some iw =>
+    if s.stack.contains w then s.setLow v (min (s.low v) iw) else s
+
+/-- exit of `strongconnect(v)`: `if low_link[v] == index[v]:` pop the component -/
+def finish (v i : Nat) (s : TState) : TState :=
+  if s.low v = i then
+    let p := popTo v s.stack []
+    { s with stack := p.2, comps := s.comps ++ [p.1] }
+  else s
+
 /-- `strongconnect(v)`; the fuel bounds the recursion depth -/
 def visit (adj : Adj) : Nat → Nat → TState → TState
   | 0, _, s => s
-  | fuel+1, v, s =>
-    let i := s.next
-    let s1 : TState :=
-      { s with next := i + 1, stack := v :: s.stack,
-               index := fun y => if y = v then some i else s.index y,
-               low := fun y => if y = v then i else s.low y,
-               iters := s.iters + 1 }
-    let s2 := (adj v).foldl (fun (s : TState) w =>
-      match s.index w with
-      | none =>
-        let s' := visit adj fuel w s
-        s'.setLow v (min (s'.low v) (s'.low w))
-      | some iw =>
-        if s.stack.contains w then s.setLow v (min (s.low v) iw) else s) s1
-    if s2.low v = i then
-      let p := popTo v s2.stack []
-      { s2 with stack := p.2, comps := s2.comps ++ [p.1] }
-    else s2
+  | fuel+1, v, s => finish v s.next ((adj v).foldl (tstep (visit adj fuel) v) (s.push v))
 
 /-- `for v in node_list: if v not in index: strongconnect(v)` -/
 def tarjanState (adj : Adj) (fuel : Nat) (nodes : List Nat) : TState :=
   nodes.foldl (fun s v => if (s.index v).isSome then s else visit adj fuel v s) TState.init
 
 /-- components in emission order; `U` is any universe closed under `adj` containing `nodes`
-(the recursion is never deeper than the number of distinct vertices) -/
+(the recursion is never deeper than the number of distinct vertices: the fuel `U.length + 1` is
+proved sufficient, and the result proved to be the SCC decomposition of the explored set, in
+`tarjan_certifies`) -/
 def tarjan (U : List Nat) (nodes : List Nat) (adj : Adj) : List (List Nat) :=
   (tarjanState adj (U.length + 1) nodes).comps
 
